@@ -207,3 +207,31 @@ theorem sopAcceptsTypes_is_source_loop (ct : Int) (built : List (Option Int)) : 
     | some t => by_cases h : t = ct <;> simp [h]
 
 end HdVerif.Ann
+
+namespace HdVerif.Ann
+open HdVerif HdVerif.Gen
+
+/-- the constructor's second check of a group, spelled out -/
+theorem sopKnownTypeCheck_spec (ct : Int) (kn : Option Int) (hz : Bool) :
+    sopKnownTypeCheck ct kn hz =
+      if (match kn with
+          | some t => decide (t ≠ ct)
+          | none => false) || (hz && decide (ct ≠ 3)) then .error .value else .ok 0 := by
+  unfold sopKnownTypeCheck
+  cases kn <;> grind (splits := 40)
+
+theorem sopKnownTypeCheck_ok_iff (ct : Int) (kn : Option Int) (hz : Bool) :
+    (match sopKnownTypeCheck ct kn hz with
+     | .ok _ => true
+     | .error _ => false) = true ↔ ((kn = none ∨ kn = some ct) ∧ (hz = true → ct = 3)) := by
+  rw [sopKnownTypeCheck_spec]
+  cases kn with
+  | none => cases hz <;> by_cases h3 : ct = 3 <;> simp [h3]
+  | some t =>
+    by_cases ht : t = ct
+    · subst ht
+      cases hz <;> by_cases h3 : t = 3 <;> simp [h3]
+    · have h1 : ¬ (some t = some ct) := fun h => ht (Option.some.inj h)
+      cases hz <;> simp [ht, h1]
+
+end HdVerif.Ann
